@@ -47,7 +47,9 @@ func faultErr(kind, op string) error {
 }
 
 type c11Server struct {
-	dropFrom int    // connections with index >= dropFrom are dropped by the server (-1: never)
+	holdReplies chan struct{} // when set, replies to calls wait until it is closed
+	held        chan struct{} // signalled when a reply is being held
+	dropFrom    int    // connections with index >= dropFrom are dropped by the server (-1: never)
 	dropKind string // on-accept | after-header | after-request
 	mu       sync.Mutex
 	counts   map[string]int // transmissions per identifier
@@ -99,6 +101,13 @@ func (s *c11Server) serve(c *memnet.Conn, idx int) {
 				s.mu.Unlock()
 			}
 			reply = echoResponse(req)
+			if s.holdReplies != nil {
+				select {
+				case s.held <- struct{}{}:
+				default:
+				}
+				<-s.holdReplies
+			}
 		}
 		if _, err := c.Write(reply); err != nil {
 			return
@@ -173,6 +182,10 @@ func c11Bubble(c c11Case) c11Result {
 				f := &memnet.Fault{At: c.At, Err: faultErr(c.Kind, "write"), Sticky: true}
 				if c.Kind == "short-write" {
 					f.Short, f.Err = 5, io.ErrShortWrite
+				}
+				if c.Kind == "reset-after-delivery" {
+					// the request reaches the server (which answers), but the write reports a reset
+					f.Delivered, f.Err = true, memnet.Reset("write")
 				}
 				a.WriteFault = f
 			}
@@ -331,6 +344,44 @@ func c11Bubble(c c11Case) c11Result {
 			return false, &r
 		}
 		return true, nil
+	}
+	if c.Dir == "close-during-call" {
+		// Close() races with the arrival of the response to a call in flight
+		srv.mu.Lock()
+		srv.holdReplies, srv.held = make(chan struct{}), make(chan struct{}, 1)
+		srv.mu.Unlock()
+		res := make(chan error, 1)
+		go func() {
+			res <- safely(func() error {
+				_, _ = cl.Request(context.Background(), &payloads.ActivateRequestPayload{UniqueIdentifier: "req-held"})
+				return nil
+			})
+		}()
+		synctest.Wait()
+		select {
+		case <-srv.held:
+		default:
+			return fail("call-hangs", "the call neither returned nor reached the server")
+		}
+		closed := make(chan struct{})
+		if c.At%2 == 1 {
+			go func() { _ = safely(func() error { return cl.Close() }); close(closed) }()
+			close(srv.holdReplies)
+		} else {
+			close(srv.holdReplies)
+			go func() { _ = safely(func() error { return cl.Close() }); close(closed) }()
+		}
+		synctest.Wait()
+		select {
+		case perr := <-res:
+			if perr != nil {
+				return fail("call-panics", "%v", perr)
+			}
+		default:
+			return fail("call-hangs", "the call did not return after Close()")
+		}
+		<-closed
+		return finish()
 	}
 	if c.Dir == "close-during-redial" {
 		for i := 0; i < 4; i++ {
@@ -513,7 +564,7 @@ func c11Space() []c11Case {
 					}
 				}
 				for at := 1; at <= 3; at++ {
-					for _, k := range []string{"closed", "reset", "short-write"} {
+					for _, k := range []string{"closed", "reset", "short-write", "reset-after-delivery"} {
 						add("write", at, k)
 					}
 				}
@@ -522,6 +573,11 @@ func c11Space() []c11Case {
 				}
 				for at := 1; at <= 3; at++ {
 					add("hook-close", at, "")
+				}
+				if reachable && fu == "again" {
+					for at := 1; at <= 2; at++ {
+						add("close-during-call", at, "")
+					}
 				}
 				if reachable && fu == "again" {
 					// Close() lands while a call is re-dialling after the server dropped the connection
@@ -545,7 +601,7 @@ func c11Space() []c11Case {
 
 func TestC11Faults(t *testing.T) {
 	const name = "TestC11Faults"
-	rec := evid.New("C11", name, "fault enumeration (single caller, synctest bubble): every Read index 1..7 and Write index 1..3 of the first connection x {EOF, closed, reset, short write}, the server closing right after its 1st..3rd reply, a server that keeps accepting and dropping every connection (on accept, after 8 bytes, after the whole request) from the 1st/2nd/3rd connection on, Close() landing while a call is re-dialling (the dial then succeeds), and the server going away exactly when the k-th request is about to be handed to the write loop (yield-point hook), "+
+	rec := evid.New("C11", name, "fault enumeration (single caller, synctest bubble): every Read index 1..7 and Write index 1..3 of the first connection x {EOF, closed, reset, short write, reset reported after the data was delivered}, the server closing right after its 1st..3rd reply, a server that keeps accepting and dropping every connection (on accept, after 8 bytes, after the whole request) from the 1st/2nd/3rd connection on, Close() landing while a call is re-dialling (the dial then succeeds), and the server going away exactly when the k-th request is about to be handed to the write loop (yield-point hook), "+
 		"x {with, without version negotiation} x {server reachable afterwards, not} x follow-up {call again, twice, Close, Close then call, Clone}; two calls precede the follow-up; "+
 		"oracle: every call and Dial/Close/Clone returns (quiescence = hang verdict), response complete and its own or an error, never two consecutive failed calls on a reachable server, <= 4 transmissions per request and a bounded number of connections per call, a closed client serves nothing and dials nothing, census of client connection goroutines 0 at the end; "+
 		"non-trivial = a fault is injected; distinct by case").Attach(t)
@@ -597,7 +653,7 @@ func TestC11Random(t *testing.T) {
 		case "read":
 			c.At, c.Kind = rapid.IntRange(1, 12).Draw(rt, "at"), rapid.SampledFrom([]string{"eof", "closed", "reset"}).Draw(rt, "kind")
 		case "write":
-			c.At, c.Kind = rapid.IntRange(1, 5).Draw(rt, "at"), rapid.SampledFrom([]string{"closed", "reset", "short-write"}).Draw(rt, "kind")
+			c.At, c.Kind = rapid.IntRange(1, 5).Draw(rt, "at"), rapid.SampledFrom([]string{"closed", "reset", "short-write", "reset-after-delivery"}).Draw(rt, "kind")
 		default:
 			c.At = rapid.IntRange(1, 5).Draw(rt, "at")
 		}
